@@ -522,3 +522,8 @@ def run(rep, tier):
             if rule == 'R11' and any(k in key for k in ('num', 'subc', 'addc', 'csub')):
                 return self.rep.undecided('R7', key, why, where)
     c01.rule_templates(_OnlyConstShapes(rep, {}), idx)
+    # R11: constants as actual parameters (import of C01-R14 for the actual lists that contain a constant)
+    from .. import report as _report
+    rep.rule('R11', 'a constant actual parameter reaches its slot with its value also when the same constant, calls and variables surround it '
+             '(import of the call-template rule C01-R14 for actual lists containing constants)', floor=20)
+    c01.rule_call_registers(_report.Import(rep, 'R11', 'C01', key_filter=lambda r, k: any(t in k for t in ('num', '(k', ',k'))), idx)
